@@ -329,6 +329,11 @@ impl InterfaceInner {
                 // the link local source and destination address...
 
                 let pkt = frag;
+                if !pkt.finished() {
+                    net_debug!("Fragmentation buffer is busy with another packet. Dropping");
+                    return;
+                }
+
                 if pkt.buffer.len() < total_size {
                     net_debug!(
                         "dispatch_ieee802154: dropping, \
